@@ -63,13 +63,21 @@ class BlockingExecutor(Executor):
         )
 
         try:
-            coerced_args = self.argument_values(field_definition, node)
-            resolved = resolver(
-                parent_value, self.context_value, info, **coerced_args
-            )
-        except (CoercionError, ResolverError) as err:
-            self.add_error(err, path, node)
-            return None
+            try:
+                coerced_args = self.argument_values(field_definition, node)
+            except CoercionError as err:
+                self.add_error(err, path, node)
+                return None
+
+            # A CoercionError coming out of the resolver itself is not an
+            # argument error (same as with the generic executor).
+            try:
+                resolved = resolver(
+                    parent_value, self.context_value, info, **coerced_args
+                )
+            except ResolverError as err:
+                self.add_error(err, path, node)
+                return None
         finally:
             self.instrumentation.on_field_end(
                 parent_value, self.context_value, info
